@@ -8,6 +8,7 @@ import (
 	"math/big"
 	"sort"
 	"strings"
+	"sync"
 )
 
 type SortKind int
@@ -90,8 +91,8 @@ var (
 	FalseT = &Term{Op: "false", S: BoolS}
 )
 
-func IntC(v int64) *Term       { return &Term{Op: "const", S: IntS, V: big.NewInt(v)} }
-func IntB(v *big.Int) *Term    { return &Term{Op: "const", S: IntS, V: new(big.Int).Set(v)} }
+func IntC(v int64) *Term       { return intern(&Term{Op: "const", S: IntS, V: big.NewInt(v)}) }
+func IntB(v *big.Int) *Term    { return intern(&Term{Op: "const", S: IntS, V: new(big.Int).Set(v)}) }
 func BoolC(b bool) *Term {
 	if b {
 		return TrueT
@@ -101,10 +102,10 @@ func BoolC(b bool) *Term {
 func BVC(v *big.Int, w int) *Term {
 	m := new(big.Int).Lsh(big.NewInt(1), uint(w))
 	x := new(big.Int).Mod(v, m)
-	return &Term{Op: "const", S: BVS(w), V: x}
+	return intern(&Term{Op: "const", S: BVS(w), V: x})
 }
 func BVCi(v int64, w int) *Term { return BVC(big.NewInt(v), w) }
-func Var(name string, s *Sort) *Term { return &Term{Op: "var", Name: name, S: s} }
+func Var(name string, s *Sort) *Term { return intern(&Term{Op: "var", Name: name, S: s}) }
 
 func (t *Term) IsConst() bool { return t.Op == "const" || t.Op == "true" || t.Op == "false" }
 func (t *Term) IsTrue() bool  { return t.Op == "true" }
@@ -116,7 +117,36 @@ func (t *Term) Int64() (int64, bool) {
 	return 0, false
 }
 
-func mk(op string, s *Sort, args ...*Term) *Term { return &Term{Op: op, S: s, Args: args} }
+var internTab = map[string]*Term{}
+var internMu sync.Mutex
+
+// intern returns the canonical pointer for a structurally identical term (hash-consing), so that
+// repeated sub-terms are shared in memory and can be shared when printing.
+func intern(t *Term) *Term {
+	var sb strings.Builder
+	sb.WriteString(t.Op)
+	sb.WriteByte('|')
+	fmt.Fprintf(&sb, "%p|%s|%d|%d|", t.S, t.Name, t.P1, t.P2)
+	if t.V != nil {
+		sb.WriteString(t.V.String())
+	}
+	for _, a := range t.Args {
+		fmt.Fprintf(&sb, "|%p", a)
+	}
+	for _, b := range t.Bound {
+		fmt.Fprintf(&sb, "|b%p", b)
+	}
+	k := sb.String()
+	internMu.Lock()
+	defer internMu.Unlock()
+	if c, ok := internTab[k]; ok {
+		return c
+	}
+	internTab[k] = t
+	return t
+}
+
+func mk(op string, s *Sort, args ...*Term) *Term { return intern(&Term{Op: op, S: s, Args: args}) }
 
 func termEq(a, b *Term) bool {
 	if a == b {
@@ -455,8 +485,7 @@ func Store(a, i, v *Term) *Term {
 func ConstArr(elem *Term) *Term { return mk("constarr", ArrS(elem.S), elem) }
 
 func App(name string, ret *Sort, args ...*Term) *Term {
-	t := &Term{Op: "app", Name: name, S: ret, Args: args}
-	return t
+	return intern(&Term{Op: "app", Name: name, S: ret, Args: args})
 }
 
 func Forall(bound []*Term, body *Term) *Term {
@@ -466,7 +495,7 @@ func Forall(bound []*Term, body *Term) *Term {
 	if len(bound) == 0 {
 		return body
 	}
-	return &Term{Op: "forall", S: BoolS, Bound: bound, Args: []*Term{body}}
+	return intern(&Term{Op: "forall", S: BoolS, Bound: bound, Args: []*Term{body}})
 }
 func Exists(bound []*Term, body *Term) *Term {
 	if body.IsFalse() {
@@ -475,7 +504,7 @@ func Exists(bound []*Term, body *Term) *Term {
 	if len(bound) == 0 {
 		return body
 	}
-	return &Term{Op: "exists", S: BoolS, Bound: bound, Args: []*Term{body}}
+	return intern(&Term{Op: "exists", S: BoolS, Bound: bound, Args: []*Term{body}})
 }
 
 // ---- bit vectors
@@ -612,9 +641,7 @@ func Extract(hi, lo int, a *Term) *Term {
 		r := new(big.Int).Rsh(a.V, uint(lo))
 		return BVC(r, hi-lo+1)
 	}
-	t := mk("extract", BVS(hi-lo+1), a)
-	t.P1, t.P2 = hi, lo
-	return t
+	return intern(&Term{Op: "extract", S: BVS(hi - lo + 1), Args: []*Term{a}, P1: hi, P2: lo})
 }
 func ZExt(n int, a *Term) *Term {
 	if n == 0 {
@@ -623,9 +650,7 @@ func ZExt(n int, a *Term) *Term {
 	if a.Op == "const" {
 		return BVC(a.V, a.S.W+n)
 	}
-	t := mk("zext", BVS(a.S.W+n), a)
-	t.P1 = n
-	return t
+	return intern(&Term{Op: "zext", S: BVS(a.S.W + n), Args: []*Term{a}, P1: n})
 }
 func SExt(n int, a *Term) *Term {
 	if n == 0 {
@@ -634,9 +659,7 @@ func SExt(n int, a *Term) *Term {
 	if a.Op == "const" {
 		return BVC(toSigned(a.V, a.S.W), a.S.W+n)
 	}
-	t := mk("sext", BVS(a.S.W+n), a)
-	t.P1 = n
-	return t
+	return intern(&Term{Op: "sext", S: BVS(a.S.W + n), Args: []*Term{a}, P1: n})
 }
 func BV2Nat(a *Term) *Term {
 	if a.Op == "const" {
@@ -669,9 +692,7 @@ func Int2BV(w int, a *Term) *Term {
 	if a.Op == "ite" {
 		return Ite(a.Args[0], Int2BV(w, a.Args[1]), Int2BV(w, a.Args[2]))
 	}
-	t := mk("int2bv", BVS(w), a)
-	t.P1 = w
-	return t
+	return intern(&Term{Op: "int2bv", S: BVS(w), Args: []*Term{a}, P1: w})
 }
 func Concat(a, b *Term) *Term {
 	if a.Op == "const" && b.Op == "const" {
@@ -966,5 +987,135 @@ func rebuild(t *Term, a []*Term) *Term {
 	}
 	n := *t
 	n.Args = a
-	return &n
+	return intern(&n)
+}
+
+// ---- printing with sharing: closed sub-terms that occur more than once become define-funs.
+
+type sharer struct {
+	count  map[*Term]int
+	open   map[*Term]bool
+	boundN map[string]bool
+	names  map[*Term]string
+	order  []*Term
+	size   map[*Term]int
+}
+
+func newSharer() *sharer {
+	return &sharer{count: map[*Term]int{}, open: map[*Term]bool{}, boundN: map[string]bool{}, names: map[*Term]string{}, size: map[*Term]int{}}
+}
+
+func (sh *sharer) collectBound(t *Term, seen map[*Term]bool) {
+	if seen[t] {
+		return
+	}
+	seen[t] = true
+	for _, b := range t.Bound {
+		sh.boundN[b.Name] = true
+	}
+	for _, a := range t.Args {
+		sh.collectBound(a, seen)
+	}
+}
+
+// visit counts references; returns whether t mentions a quantifier-bound variable.
+func (sh *sharer) visit(t *Term) bool {
+	sh.count[t]++
+	if sh.count[t] > 1 {
+		return sh.open[t]
+	}
+	op := false
+	sz := 1
+	if t.Op == "var" && sh.boundN[t.Name] {
+		op = true
+	}
+	for _, a := range t.Args {
+		if sh.visit(a) {
+			op = true
+		}
+		sz += sh.size[a]
+	}
+	sh.open[t] = op
+	sh.size[t] = sz
+	sh.order = append(sh.order, t) // post-order
+	return op
+}
+
+func (sh *sharer) assign() {
+	n := 0
+	for _, t := range sh.order {
+		if sh.count[t] > 1 && !sh.open[t] && sh.size[t] >= 4 && t.Op != "const" && t.Op != "var" && len(t.Args) > 0 {
+			n++
+			sh.names[t] = fmt.Sprintf("$s%d", n)
+		}
+	}
+}
+
+func (sh *sharer) write(t *Term, sb *strings.Builder, top bool) {
+	if !top {
+		if nm, ok := sh.names[t]; ok {
+			sb.WriteString(nm)
+			return
+		}
+	}
+	switch t.Op {
+	case "true", "false", "const", "var":
+		t.write(sb)
+	case "constarr":
+		fmt.Fprintf(sb, "((as const %s) ", t.S)
+		sh.write(t.Args[0], sb, false)
+		sb.WriteString(")")
+	case "app":
+		if len(t.Args) == 0 {
+			sb.WriteString(sanitize(t.Name))
+			return
+		}
+		sb.WriteString("(" + sanitize(t.Name))
+		for _, a := range t.Args {
+			sb.WriteString(" ")
+			sh.write(a, sb, false)
+		}
+		sb.WriteString(")")
+	case "forall", "exists":
+		sb.WriteString("(" + t.Op + " (")
+		for _, b := range t.Bound {
+			fmt.Fprintf(sb, "(%s %s)", sanitize(b.Name), b.S)
+		}
+		sb.WriteString(") ")
+		sh.write(t.Args[0], sb, false)
+		sb.WriteString(")")
+	case "extract":
+		fmt.Fprintf(sb, "((_ extract %d %d) ", t.P1, t.P2)
+		sh.write(t.Args[0], sb, false)
+		sb.WriteString(")")
+	case "zext":
+		fmt.Fprintf(sb, "((_ zero_extend %d) ", t.P1)
+		sh.write(t.Args[0], sb, false)
+		sb.WriteString(")")
+	case "sext":
+		fmt.Fprintf(sb, "((_ sign_extend %d) ", t.P1)
+		sh.write(t.Args[0], sb, false)
+		sb.WriteString(")")
+	case "int2bv":
+		fmt.Fprintf(sb, "((_ int2bv %d) ", t.P1)
+		sh.write(t.Args[0], sb, false)
+		sb.WriteString(")")
+	default:
+		sb.WriteString("(" + t.Op)
+		for _, a := range t.Args {
+			sb.WriteString(" ")
+			sh.write(a, sb, false)
+		}
+		sb.WriteString(")")
+	}
+}
+
+func (sh *sharer) defs(sb *strings.Builder) {
+	for _, t := range sh.order {
+		if nm, ok := sh.names[t]; ok {
+			fmt.Fprintf(sb, "(define-fun %s () %s ", nm, t.S)
+			sh.write(t, sb, true)
+			sb.WriteString(")\n")
+		}
+	}
 }
